@@ -251,6 +251,16 @@ Definition aenv := list (var * origins).
 Definition origin_local (o : origin) : bool := match o with Fresh | Kwargs => true | _ => false end.
 Definition local (os : origins) : bool := forallb origin_local os.
 Definition is_fresh (o : origin) : bool := match o with Fresh => true | _ => false end.
+Definition origin_eqb (a b : origin) : bool :=
+  match a, b with
+  | Fresh, Fresh | Kwargs, Kwargs | Unknown, Unknown => true
+  | Param p, Param q => String.eqb p q
+  | Global m, Global n => String.eqb m n
+  | _, _ => false
+  end.
+(* origin sets are duplicate-free lists *)
+Definition oadd (o : origin) (acc : origins) : origins := if existsb (origin_eqb o) acc then acc else o :: acc.
+Definition ounion (a b : origins) : origins := fold_right oadd b a.
 
 Fixpoint afind (a : aenv) (x : var) : option origins :=
   match a with [] => None | (y, o) :: t => if String.eqb y x then Some o else afind t x end.
@@ -259,7 +269,7 @@ Definition aget (a : aenv) (x : var) : origins := match afind a x with Some o =>
 Definition aset (a : aenv) (x : var) (o : origins) : aenv := (x, o) :: a.
 Definition akeys (a : aenv) : list var := map fst a.
 (* Fn.merge: union per name; a name bound on one side only also gets Unknown (that is aget on the other side) *)
-Definition merge (a b : aenv) : aenv := map (fun k => (k, aget a k ++ aget b k)) (akeys a ++ akeys b).
+Definition merge (a b : aenv) : aenv := map (fun k => (k, ounion (aget a k) (aget b k))) (akeys a ++ akeys b).
 (* `if x is not None` / `if x is None`: on the branch where x is None it is an immutable fresh value *)
 Definition refine_none (a : aenv) (x : var) : aenv := match afind a x with Some _ => aset a x [Fresh] | None => a end.
 
@@ -268,7 +278,7 @@ Definition aexpr (e : expr) (a : aenv) : origins :=
   | ENone | EConst _ | EFresh _ => [Fresh]
   | EAlias x | EView x _ | EElem x _ => aget a x            (* Fn.org: Name; Subscript -> origins of the value *)
   end.
-Definition aunion (a : aenv) (xs : list var) : origins := flat_map (aget a) xs.
+Definition aunion (a : aenv) (xs : list var) : origins := fold_right (fun x acc => ounion (aget a x) acc) [] xs.
 (* a call: Fresh when the callee is known to return only fresh values, otherwise it may return any of its arguments *)
 Definition acall (FS : list fname) (f : fname) (args : list var) (kw : option var) (a : aenv) : origins :=
   if existsb (String.eqb f) FS then [Fresh]
@@ -301,9 +311,9 @@ Fixpoint asites (s : stmt) (a : aenv) : list (var * origins) :=
 Fixpoint aret (s : stmt) (a : aenv) : origins :=
   match s with
   | SReturn xs => aunion a xs
-  | SIf _ s1 s2 => aret s1 a ++ aret s2 a
-  | SIfNotNone x s1 s2 => aret s1 a ++ aret s2 (refine_none a x)
-  | SSeq s1 s2 => aret s1 a ++ aret s2 (astep s1 a)
+  | SIf _ s1 s2 => ounion (aret s1 a) (aret s2 a)
+  | SIfNotNone x s1 s2 => ounion (aret s1 a) (aret s2 (refine_none a x))
+  | SSeq s1 s2 => ounion (aret s1 a) (aret s2 (astep s1 a))
   | SLoop _ b => aret b (merge a (astep b a))
   | _ => []
   end.
